@@ -59,10 +59,20 @@ class Injector:
                     path = os.fspath(file)
 
                     def torn_close():
+                        try:
+                            f.flush()
+                            written = f.tell() - before       # bytes that went through THIS handle
+                        except Exception:  # noqa
+                            written = 0
                         o_close()
-                        size = os.path.getsize(path)
-                        os.truncate(path, before + (size - before) // 2)
-                        inj.record("TORN %s %d -> %d" % (inj.normalise(path), size, before + (size - before) // 2))
+                        size = os.path.getsize(path) if os.path.exists(path) else -1
+                        if written <= 0 or size != before + written:
+                            # nothing was written through this handle (or somebody else wrote to the file as well): there is no torn
+                            # state of this handle's data to construct; the run goes on (reported as 'unreached' if it finishes)
+                            inj.record("NOTORN %s written=%d size=%d" % (inj.normalise(path), written, size))
+                            return
+                        os.truncate(path, before + written // 2)
+                        inj.record("TORN %s %d -> %d" % (inj.normalise(path), size, before + written // 2))
                         inj.die()
                     try:
                         f.close = torn_close
